@@ -46,6 +46,7 @@ class AirPlayPairingHandler(PairingHandler):
 
     async def begin(self) -> None:
         """Start pairing process."""
+        self._has_paired = False
         self.http = await http_connect(self.address, self.service.port)
         self.pairing_procedure = pair_setup(
             (
@@ -55,7 +56,6 @@ class AirPlayPairingHandler(PairingHandler):
             ),
             self.http,
         )
-        self._has_paired = False
         return await error_handler(
             self.pairing_procedure.start_pairing, exceptions.PairingError
         )
